@@ -812,7 +812,7 @@ package task
 //@   site templater.ReplaceVars#3 ghost lastRV := result
 //@   site templater.ReplaceVars#3 ghost rvDirty := false
 //@   site (*Vars).Merge#3 requires arg0 == new.Env && arg1 == lastRV && !rvDirty                               [C10]
-//@   site append requires fresh(arg1[0])                                                                       [C11,C18,C14,C06]
+//@   site append requires fresh(arg1[0])                                                                       [C11,C18,C14,C06,C19]
 // every command put into the compiled task (one per loop item, deferred, plain) keeps the attributes that
 // decide how its failure and its output are treated
 //@   site append#1 requires arg1[0].IgnoreError == cmd.IgnoreError && arg1[0].Silent == cmd.Silent && arg1[0].Defer == cmd.Defer   [C03,C02,C14]
@@ -872,6 +872,12 @@ package task
 //@   site append#2 requires arg0 == values && arg1[0] == v                                                      [C02,C09]
 //@   nosite maps.Keys                                                                                           [C02,C09]
 //@   nosite maps.Values                                                                                         [C02,C09]
+// ... and the lists the items come from (the list of the task definition, the value of a variable) are read, never
+// edited: an item that is "cleaned up" in place is changed for every later call of the task, under the eyes of the
+// calls that are being compiled at the same moment
+//@   nosite store:[]any                                                                                         [C18,C11,C19]
+//@   nosite store:[]interface{}                                                                                 [C18,C11,C19]
+//@   nosite strings.TrimSpace                                                                                   [C19,C02]
 //@   nosite templater.Replace                                                                                   [C19]
 //@   nosite templater.ReplaceWithExtra                                                                          [C19]
 //@   nosite templater.ReplaceVar                                                                                [C19]
